@@ -28,6 +28,29 @@ ListedAreOffered == \A h \in Histories : \A p \in Typed : \A n \in h[Len(h)] : I
 StaleNeverOffered == \A h \in Histories : \A p \in Typed : \A k \in 1..(Len(h) - 1) :
     \A n \in h[k] \ h[Len(h)] : Append(n, "-") \notin Completions(h, p)
 
+\* ---- the readline front end (CodeInputter): once a nameplate has been claimed there is no going back ---------------------------
+\* A session is what the user does at the prompt: Tab on a line whose nameplate part is `np` (with or without the "-" after it),
+\* any number of times, then Return on a line whose nameplate part is `np`.  Tab on a line with a "-" claims the nameplate typed
+\* before it (choose_nameplate: irrevocable).  From then on every line must carry exactly that nameplate - not another one, not a
+\* longer one that merely starts with it - or the entry is refused; a line that is accepted yields exactly the code on it.
+Tabs == [t : {"tab"}, np : Universe, dash : BOOLEAN]
+Fins == [t : {"fin"}, np : Universe]
+Sessions == {<<f>> : f \in Fins} \cup {<<a, f>> : a \in Tabs, f \in Fins} \cup {<<a, b, f>> : a \in Tabs, b \in Tabs, f \in Fins}
+NoCommit == <<"none">>
+RECURSIVE Outcome(_, _, _)
+\* -> <<"refused", k>> (the k-th event is refused) or <<"code", np>> (Return accepted: the code's nameplate is np)
+Outcome(s, k, committed) ==
+    LET e == s[k] IN
+    IF e.t = "fin"
+    THEN IF committed # NoCommit /\ e.np # committed THEN <<"refused", k>> ELSE <<"code", e.np>>
+    ELSE IF committed # NoCommit /\ (~e.dash \/ e.np # committed) THEN <<"refused", k>>
+         ELSE Outcome(s, k + 1, IF e.dash /\ committed = NoCommit THEN e.np ELSE committed)
+\* whatever is accepted is what was on the line; a line with another nameplate than the claimed one is never accepted
+AcceptedIsTyped == \A s \in Sessions : LET o == Outcome(s, 1, NoCommit) IN o[1] = "code" => o[2] = s[Len(s)].np
+ClaimIsFinal == \A s \in Sessions : \A k \in 1..(Len(s) - 1) :
+    (s[k].dash /\ Outcome(s, 1, NoCommit)[1] = "code" /\ \A j \in 1..(k - 1) : ~s[j].dash) => s[Len(s)].np = s[k].np
+ReportSessions == \A s \in Sessions : PrintT(<<"RLC", s, Outcome(s, 1, NoCommit)>>)
+
 ReportCases == \A h \in Histories : \A p \in Typed : PrintT(<<"NPC", h, p, Completions(h, p)>>)
 
 VARIABLE done
